@@ -228,6 +228,7 @@ def execute_run(plan):
     old_env = os.environ.get("MONKEYTYPE_TRACE_MODULES")
     evaluated = 0
     try:
+        gc.collect()
         rt.reset()
         D.get_driver()
         mat = D.Mat(lp)
